@@ -54,8 +54,21 @@ def run(facts, R):
         why = None
         if is_call(val, "std::cmp::Ord::min", "core::cmp::Ord::min", "min") and any(_is_f(a, "sent_offset") for a in val[2]):
             bounded, why = True, "value is min(_, sent_offset)"
-        elif has_cmp(fs, "Le", lambda a: a == val, lambda x: _is_f(x, "sent_offset")):
+        elif has_cmp(fs, "Le", lambda a: a == val, lambda x: _is_f(x, "sent_offset")) or has_cmp(fs, "Lt", lambda a: a == val, lambda x: _is_f(x, "sent_offset")):
             bounded, why = True, "store dominated by `value <= sent_offset`"
+        elif val[0] == "local" and len(b.defs_of(val[1])) > 1:
+            # a value chosen between alternatives (`if x < sent { x } else { sent }`): each alternative is bounded
+            okd = True
+            for d in b.defs_of(val[1]):
+                if d[0] != "assign":
+                    okd = False
+                    break
+                dv = sym.rvalue(d[3])
+                dfs = facts_at(b, sym, facts, d[1])
+                okd = okd and (_is_f(dv, "sent_offset") or has_cmp(dfs, "Le", lambda a: a == dv, lambda x: _is_f(x, "sent_offset"))
+                               or has_cmp(dfs, "Lt", lambda a: a == dv, lambda x: _is_f(x, "sent_offset")))
+            if okd:
+                bounded, why = True, "every alternative of the stored value is sent_offset or <= sent_offset"
         R.check(bounded, "acked-le-sent", fn, "acked_offset<=sent_offset",
                 "store acked_offset = %s is neither min(_, sent_offset) nor guarded by value <= sent_offset; guards: %s"
                 % (vtxt, texts(fs)), w["span"], why)
@@ -146,7 +159,8 @@ def run(facts, R):
     oks = blocks_assigning_variant(wc, "std::result::Result", "Ok")
     R.floor("credit-predicate", len(oks), 1, "Ok exits of wait_for_credit")
     for i, j, s in oks:
-        for fs in disjunct_facts(wc, sym, facts, i):
+        from analysis.guards import refine
+        for fs in [alt for fs0 in disjunct_facts(wc, sym, facts, i) for alt in refine(wc, sym, facts, fs0)]:
             not_cancelled = option_fact(fs, lambda e: _is_f(e, "cancelled"), "None")
             R.check(not_cancelled, "cancel-sticky", wc.path, "Ok-after-cancel-test",
                     "wait_for_credit can grant credit without testing `cancelled` first; guards: %s" % texts(fs), s.get("span"),
